@@ -952,7 +952,13 @@ func leftBitshiftSmallInt[T SimpleInt](i SmallInt, other T) Value {
 	if other < 0 {
 		return SmallInt(0).ToValue()
 	}
-	complementaryShift := i >> (bitsize - other)
+	if i == 0 {
+		return SmallInt(0).ToValue()
+	}
+	var complementaryShift SmallInt
+	if other <= bitsize {
+		complementaryShift = i >> (bitsize - other)
+	}
 	if other > bitsize || (i < 0 && complementaryShift != -1) || (i > 0 && complementaryShift != 0) {
 		// overflow
 		iBig := big.NewInt(int64(i))
